@@ -70,9 +70,7 @@ WeakAll(s, ws) == IF ws = <<>> THEN s ELSE WeakAll(WeakApply(s, Head(ws)), Tail(
 \* kind of np.result_type(arrays of kinds `strong`, Python scalars of categories `weak`)
 ResultKind(strong, weak) == WeakAll(PromoteAll(strong), weak)
 
-\* casting="same_kind" (what ufunc out= permits): never to a lower category,
-\* except signed <-> unsigned integers
-CanCastSameKind(from, to) ==
-  \/ Rank(from) <= Rank(to)
-  \/ (from = "i" /\ to = "u")
+\* casting="same_kind" for the concrete dtypes above (what ufunc out= permits):
+\* never to a lower category (int64 -> uint8 is refused as well)
+CanCastSameKind(from, to) == Rank(from) <= Rank(to)
 =============================================================================
